@@ -22,7 +22,7 @@ EXTENDS Naturals, Sequences, FiniteSets, TLC
 MonInit == [viol |-> <<>>, sc |-> "", owner |-> <<>>,    \* <<[v, p]>>
             cur |-> <<>>,                                 \* <<[p, v]>> current version per point
             disc |-> {}, gotE |-> {}, lastS |-> <<>>, fresh |-> {}, n |-> 0]
-V(m, reason, l, ctx) == [m EXCEPT !.viol = Append(@, [prop |-> "C02", reason |-> reason, line |-> l, sc |-> m.sc, ctx |-> ctx])]
+V(m, reason, l, ctx) == [m EXCEPT !.viol = IF Len(@) >= 300 THEN @ ELSE Append(@, [prop |-> "C02", reason |-> reason, line |-> l, sc |-> m.sc, ctx |-> ctx])]
 
 OwnerOf(m, v) == LET xs == SelectSeq(m.owner, LAMBDA r : r.v = v) IN IF xs = <<>> THEN 0 ELSE xs[1].p
 CurOf(m, p) == LET xs == SelectSeq(m.cur, LAMBDA r : r.p = p) IN IF xs = <<>> THEN 0 ELSE xs[1].v
